@@ -1,7 +1,13 @@
 """C17 helpers: aggregation expressions read up to behaviour-preserving surface differences.
 
-Three small facilities the engine does not have, all analysis-only and purely syntactic on
-expressions in which the symbolic walker (engine/sympath) has already substituted every local:
+Small facilities the engine does not have, all analysis-only and purely syntactic on expressions in
+which the symbolic walker (engine/sympath) has already substituted every local:
+
+  prepared(prog, fn)    engine/normalize.inline_helpers, plus (a) calls of straight-line private helpers
+                        (`x = …; return e`) replaced by `e` wherever they stand, e.g. inside a
+                        comprehension (inline_straightline), and (b) calls of block-shaped helpers that
+                        stand inside a larger expression hoisted in front of their statement so that
+                        the statement-level splicing applies (hoist_block_helpers);
 
   elem_of(e)            the expression denoting a *generic element* of the iterable expression `e`:
                         generator / list comprehensions (any number of generators), `map(lambda…)`,
@@ -11,11 +17,14 @@ expressions in which the symbolic walker (engine/sympath) has already substitute
                         indexing, or on a helper the comprehension was extracted into.  A root iterable
                         `X` contributes the symbol `<elem of X>`.  Deduplicating containers (sets) and
                         filters other than None-filters are never looked through.
-  fold_loops(fn, e)     `acc = 0; for T in IT: …; acc += inc` is read as `sum(inc for T in IT)`:
+  fold_loops(fn, e, g)  `acc = 0; for T in IT: …; acc += inc` is read as `sum(inc for T in IT)`:
                         the placeholders `<acc@loopN>` the symbolic walker leaves for names bound in
                         a loop are replaced by that sum (initial value added unless it is zero), for
-                        additive accumulators whose every complete pass of the body adds the same
-                        increment.  Passes that `continue` (a group without data) add nothing.
+                        additive accumulators: every pass of the body either leaves the name alone or
+                        re-binds it to itself + one and the same increment.  The conditions of the
+                        adding passes (the negation of a `continue` guard, an enclosing `if`) are
+                        handed back in `g` for the caller to judge; without `g` only unguarded
+                        accumulators are folded.
   agg_term(e, side)     normal form of an aggregate over battery groups:
                            ('sum_g', op, parts)   Σ_g op(part, part)      part = ('leaf', (kind, field))
                                                                                 | ('sum_i', (kind, field))
@@ -32,7 +41,7 @@ import re
 from dataclasses import dataclass, field
 from typing import Any, Callable
 
-from ..engine.normalize import inline_helpers, positional
+from ..engine.normalize import ANCHOR_NAMES, _bind, _helper_target, _simple_helper, inline_helpers
 from ..engine.report import AnalysisError
 from ..engine.resolver import FuncInfo, FuncNode, Program
 from ..engine.sympath import Path, SymUnsupported, _Subst, sym_block, sym_paths
@@ -82,7 +91,102 @@ def record_fields(prog: Program, module: str, cls: str) -> list[str]:
 
 def prepared(prog: Program, fn: FuncInfo) -> FuncNode:
     """Copy of the function with its simple private helpers (methods, module functions, closures) spliced in."""
-    return inline_helpers(prog, fn)
+    node = inline_straightline(prog, fn, inline_helpers(prog, fn))
+    if hoist_block_helpers(prog, fn, node):
+        node = inline_straightline(prog, fn, inline_helpers(prog, fn, node=node))
+    return node
+
+
+def hoist_block_helpers(prog: Program, fn: FuncInfo, node: FuncNode) -> bool:
+    """`return F(a, self._h(x))` -> `__h0 = self._h(x); return F(a, __h0)` for calls of block-shaped simple
+    private helpers standing inside a top-level statement's expression (outside comprehensions and
+    lambdas), so that the statement-level splicing can then put the helper's body in front of the
+    statement.  Analysis-only: the helper is pure as far as the aggregates read from it are concerned,
+    its position among the other operands does not matter.  Works in place; True if anything moved."""
+    nested = {n.name: n for n in ast.walk(node) if isinstance(n, (ast.FunctionDef, ast.AsyncFunctionDef)) and n is not node}
+    moved = False
+    body = node.body
+    i = 0
+    counter = 0
+    while i < len(body):
+        st = body[i]
+        if not isinstance(st, (ast.Return, ast.Assign, ast.AnnAssign, ast.Expr)) or getattr(st, "value", None) is None:
+            i += 1
+            continue
+        hits: list[ast.Call] = []
+
+        def scan(e: ast.AST, top: bool) -> None:
+            if isinstance(e, (ast.Lambda, ast.GeneratorExp, ast.ListComp, ast.SetComp, ast.DictComp, ast.Await)):
+                return
+            if isinstance(e, ast.Call) and not top:
+                h = _helper_target(prog, fn, e, nested)
+                if h is not None and h.name not in ANCHOR_NAMES and h is not node and h.name != fn.name \
+                        and _simple_helper(h) == "block" and _bind(h, e) is not None:
+                    hits.append(e)
+                    return
+            for c in ast.iter_child_nodes(e):
+                scan(c, False)
+
+        scan(st.value, True)  # type: ignore[arg-type]
+        if not hits:
+            i += 1
+            continue
+        pre: list[ast.stmt] = []
+        repl: dict[int, ast.AST] = {}
+        for c in hits:
+            tmp = f"__h{counter}"
+            counter += 1
+            pre.append(ast.copy_location(ast.Assign(targets=[ast.Name(id=tmp, ctx=ast.Store())], value=c), st))
+            repl[id(c)] = ast.copy_location(name(tmp), c)
+
+        class T(ast.NodeTransformer):
+            def visit_Call(self, n: ast.Call) -> ast.AST:  # noqa: N802
+                return repl[id(n)] if id(n) in repl else self.generic_visit(n)
+        st.value = T().visit(st.value)  # type: ignore[attr-defined]
+        body[i:i] = pre
+        i += len(pre) + 1
+        moved = True
+    if moved:
+        ast.fix_missing_locations(node)
+    return moved
+
+
+def inline_straightline(prog: Program, fn: FuncInfo, node: FuncNode, depth: int = 2) -> FuncNode:
+    """Calls of private helpers whose body is straight-line code ending in `return e` (locals, no
+    branches, no writes, no loops) are replaced by `e` with locals and parameters substituted —
+    wherever the call stands (inside a comprehension, an argument, …), which the statement-level
+    splicing of engine/normalize cannot do.  Works in place on `node` (already a private copy)."""
+    for _ in range(depth):
+        nested = {n.name: n for n in ast.walk(node)
+                  if isinstance(n, (ast.FunctionDef, ast.AsyncFunctionDef)) and n is not node}
+        repl: dict[int, ast.AST] = {}
+        for call in [n for n in ast.walk(node) if isinstance(n, ast.Call)]:
+            h = _helper_target(prog, fn, call, nested)
+            if h is None or h.name in ANCHOR_NAMES or h is node or isinstance(h, ast.AsyncFunctionDef) \
+                    or h.name == fn.name:
+                continue
+            binds = _bind(h, call)
+            if binds is None:
+                continue
+            try:
+                paths = sym_paths(h)
+            except SymUnsupported:
+                continue
+            if len(paths) != 1 or paths[0].exit != "return" or paths[0].ret is None \
+                    or any(e.kind != "call" for e in paths[0].effects):
+                continue
+            repl[id(call)] = ast.copy_location(subst(paths[0].ret, binds), call)
+        if not repl:
+            break
+
+        class T(ast.NodeTransformer):
+            def visit_Call(self, n: ast.Call) -> ast.AST:  # noqa: N802
+                if id(n) in repl:
+                    return repl[id(n)]          # outermost first; inner helper calls are met next round
+                return self.generic_visit(n)
+        T().visit(node)
+        ast.fix_missing_locations(node)
+    return node
 
 
 def bind_target(t: ast.AST, src: ast.AST) -> dict[str, ast.AST] | None:
@@ -237,19 +341,32 @@ def loop_passes(fn: FuncNode, loop: ast.For) -> tuple[ast.AST, dict[str, ast.AST
     return subst(loop.iter, env), env, [p for p, st in res if st == "next"], [p for p, _st in res]
 
 
-def loop_sums(fn: FuncNode, loop: ast.For) -> dict[str, ast.AST]:
-    """accumulator -> its value after the loop as `init + sum(inc for T in IT)` (init dropped when 0)."""
+Guard = tuple[ast.AST, bool]     # (condition atom with locals substituted, its outcome)
+
+
+def loop_sums(fn: FuncNode, loop: ast.For) -> dict[str, tuple[ast.AST, list[Guard]]]:
+    """accumulator -> (its value after the loop as `init + sum(inc for T in IT)` (init dropped when 0),
+    the conditions under which a pass of the body adds the increment).
+
+    An accumulator is a name bound before the loop that every pass of the body either leaves alone or
+    re-binds to `itself + inc` with one and the same `inc`; the passes that leave it alone (a
+    `continue`, an untaken `if`) are exactly those excluded by the returned guards, which the caller
+    must judge (an unguarded sum has none)."""
     lp = loop_passes(fn, loop)
     if lp is None:
         return {}
-    it, env, full, _all = lp
-    if not full:
-        return {}
-    out: dict[str, ast.AST] = {}
+    it, env, _full, passes = lp
+    out: dict[str, tuple[ast.AST, list[Guard]]] = {}
     for a in sorted(_stored(loop) - _stored(loop.target)):
+        if a not in env:
+            continue
         incs: list[ast.AST] = []
-        for p in full:
+        guards: dict[tuple[str, bool], Guard] = {}
+        additive = True
+        for p in passes:
             v = p.env.get(a)
+            if v is None or is_name(v, a) or p.exit == "raise":
+                continue                                   # this pass adds nothing / aborts the call
             inc = None
             if isinstance(v, ast.BinOp) and isinstance(v.op, ast.Add):
                 if is_name(v.left, a):
@@ -257,10 +374,12 @@ def loop_sums(fn: FuncNode, loop: ast.For) -> dict[str, ast.AST]:
                 elif is_name(v.right, a):
                     inc = v.left
             if inc is None or any(is_name(n, a) for n in ast.walk(inc)):
-                incs = []
+                additive = False
                 break
             incs.append(inc)
-        if not incs or len({u(i) for i in incs}) != 1 or a not in env:
+            for _k, _ko, test, _ln, outcome in p.conds:
+                guards[(u(test), outcome)] = (test, outcome)
+        if not additive or not incs or len({u(i) for i in incs}) != 1:
             continue
         total: ast.AST = ast.Call(func=name("sum"), args=[ast.GeneratorExp(elt=incs[0], generators=[
             ast.comprehension(target=copy.deepcopy(loop.target), iter=copy.deepcopy(it), ifs=[], is_async=0)])],
@@ -269,14 +388,16 @@ def loop_sums(fn: FuncNode, loop: ast.For) -> dict[str, ast.AST]:
         if not (isinstance(init, ast.Constant) and isinstance(init.value, (int, float))
                 and not isinstance(init.value, bool) and init.value == 0):
             total = ast.BinOp(left=copy.deepcopy(init), op=ast.Add(), right=total)
-        out[a] = ast.fix_missing_locations(ast.copy_location(total, loop))
+        out[a] = (ast.fix_missing_locations(ast.copy_location(total, loop)), list(guards.values()))
     return out
 
 
-def fold_loops(fn: FuncNode, e: ast.AST) -> ast.AST:
-    """Replace the `<acc@loopN>` placeholders in `e` by the sums the loops at line N compute."""
+def fold_loops(fn: FuncNode, e: ast.AST, guards: list[Guard] | None = None) -> ast.AST:
+    """Replace the `<acc@loopN>` placeholders in `e` by the sums the loops at line N compute; the
+    conditions under which the increments are added are appended to `guards` (when no list is given a
+    guarded accumulator is not folded)."""
     loops = {s.lineno: s for s in strip_doc(fn.body) if isinstance(s, ast.For)}
-    cache: dict[int, dict[str, ast.AST]] = {}
+    cache: dict[int, dict[str, tuple[ast.AST, list[Guard]]]] = {}
 
     class T(ast.NodeTransformer):
         def visit_Name(self, node: ast.Name) -> ast.AST:  # noqa: N802
@@ -285,8 +406,11 @@ def fold_loops(fn: FuncNode, e: ast.AST) -> ast.AST:
                 ln = int(m.group(2))
                 if ln not in cache:
                     cache[ln] = loop_sums(fn, loops[ln])
-                if m.group(1) in cache[ln]:
-                    return copy.deepcopy(cache[ln][m.group(1)])
+                hit = cache[ln].get(m.group(1))
+                if hit is not None and (guards is not None or not hit[1]):
+                    if guards is not None:
+                        guards.extend(hit[1])
+                    return copy.deepcopy(hit[0])
             return node
     return T().visit(copy.deepcopy(e))
 
